@@ -73,6 +73,21 @@ def content_row(m, kind, n, seed, with_key=False):
         return [A.BAR(n * 5 + seed)] * w
     if kind == 'k':     # a clef on every kern-like column (agnostic encodings need a clef in force)
         return [A.V(A.CLEFS[(n + i + seed) % len(A.CLEFS)], 'CLEF') if types[i] in A.KERN_LIKE else A.NULL_I for i in range(w)]
+    if kind in 'KTCM':   # K key signature / T time signature on every kern-like column; C clef / M time signature on the first one only
+        keys = ['*k[f#]', '*k[b-]', '*k[]', '*k[f#c#]']
+        times = ['*M4/4', '*M3/4', '*M6/8', '*M2/2']
+        kern_cols = [i for i in range(w) if types[i] in A.KERN_LIKE]
+        out = []
+        for i in range(w):
+            if i not in kern_cols or (kind in 'CM' and i != kern_cols[0]):
+                out.append(A.NULL_I)
+            elif kind == 'K':
+                out.append(A.V(keys[(n + seed) % 4], 'KEY_SIGNATURE'))
+            elif kind in 'TM':
+                out.append(A.V(times[(n + seed) % 4], 'TIME_SIGNATURE'))
+            else:
+                out.append(A.V(A.CLEFS[(n + seed) % 3], 'CLEF'))
+        return out
     if kind == 'z':
         return [A.NULL_D] * w
     if kind == 'n':
@@ -102,7 +117,7 @@ def seq_model(headers, seq, seed, cap=6, pre=(), with_key=False, close=True):
         w = m.width()
         if w == 0:
             return None
-        if s[0] in 'dicbznk':
+        if s[0] in 'dicbznkKTCM':
             m.add(content_row(m, s[0], n, seed, with_key))
         elif s == 'g':
             m.add_g(A.GCOMM[(n + seed) % len(A.GCOMM)])
